@@ -156,8 +156,12 @@ func (m *ModelServer) AcknowledgePublication(_ context.Context, request *traits.
 	if request.Version == "" {
 		return nil, status.Error(codes.InvalidArgument, "version is required")
 	}
+	receipt := request.Receipt
+	if receipt == traits.Publication_Audience_RECEIPT_UNSPECIFIED {
+		receipt = traits.Publication_Audience_ACCEPTED // "ACCEPTED is used if not present"
+	}
 	received := &traits.Publication{Audience: &traits.Publication_Audience{
-		Receipt:               request.Receipt,
+		Receipt:               receipt,
 		ReceiptRejectedReason: request.ReceiptRejectedReason,
 	}}
 
